@@ -622,7 +622,7 @@ fn run_program(
                 stats.functions_runnable += 1;
             }
             let mut rng = Rng(seed ^ fnv(&fname) ^ fnv(name));
-            let n_vectors = if shapes.is_empty() { 1 } else if mutant { 3 } else if thorough { 16 } else { 5 };
+            let n_vectors = if shapes.is_empty() { 1 } else if mutant { 3 } else if thorough { 40 } else { 5 };
             for v in 0..n_vectors {
                 let mut args = vec![];
                 let mut shown = vec![];
@@ -741,7 +741,7 @@ fn run_mutants(name: &str, program: &Program, thorough: bool, seed: u64, out_dir
     let mut rng = Rng(seed ^ fnv(name) ^ 0x6d75);
     let mut ms = mutate::enumerate(program, &mut rng, 0..n, true);
     // declaration-level value edits and statement-level edits are both wanted: sample uniformly
-    let budget = if thorough { 120 } else { 10 };
+    let budget = if thorough { 300 } else { 10 };
     let crate_prefix = format!("{name}::");
     for _ in 0..budget {
         if ms.is_empty() {
@@ -754,6 +754,14 @@ fn run_mutants(name: &str, program: &Program, thorough: bool, seed: u64, out_dir
         // as an in-memory Program (the felt252 deserialiser derives one from the other; the runner
         // builds its entry code from the signature): not an input of the property
         if q.funcs.iter().any(|f| f.signature.param_types.iter().ne(f.params.iter().map(|p| &p.ty))) {
+            continue;
+        }
+        // the runner passes the gas counter / builtins by the compiler's convention (implicits first, in
+        // its order): a mutant with an edited function table would be run with misplaced arguments,
+        // which says nothing about the program - keep the function table as the compiler emitted it
+        if q.funcs.len() != program.funcs.len()
+            || q.funcs.iter().zip(program.funcs.iter()).any(|(a, b)| a.id != b.id || a.signature != b.signature || a.params != b.params)
+        {
             continue;
         }
         stats.mutants_tried += 1;
